@@ -462,6 +462,36 @@ pub fn app_name_string<S: Src>(s: &mut S) {
     }
 }
 
+/// `get_reason_string` / `get_value_string` on texts of concrete length `L` with symbolic bytes
+/// (valid and invalid UTF-8): the symbolic-length versions below exhaust memory in the heap
+/// copy + UTF-8 validation and are not registered.
+pub fn bye_reason_string_fixed<S: Src, const L: usize>(s: &mut S) {
+    let mut data: [u8; 16] = s.bytes();
+    let n = 8 + (1 + L + 3) / 4 * 4;
+    data[0] = 0x81;
+    data[1] = 203;
+    data[2] = 0;
+    data[3] = (n / 4 - 1) as u8;
+    data[8] = L as u8;
+    let p = Bye::parse(&data[..n]).expect("HARNESS: well-formed BYE");
+    let r = p.get_reason_string();
+    assert!(r.is_some() == (L > 0));
+    vcover!(matches!(r, Some(Ok(_))), "valid reason");
+    vcover!(matches!(r, Some(Err(_))), "invalid UTF-8 reason");
+    forget(r);
+}
+
+pub fn item_value_string_fixed<S: Src, const L: usize>(s: &mut S) {
+    let mut data: [u8; 8] = s.bytes();
+    data[0] = 1;
+    data[1] = L as u8;
+    let (i, _) = verif::sdes::item_parse(&data[..2 + L]).expect("HARNESS: well-formed item");
+    let r = i.get_value_string();
+    vcover!(r.is_ok(), "valid value");
+    vcover!(r.is_err(), "invalid UTF-8 value");
+    forget(r);
+}
+
 pub fn bye_reason_string<S: Src>(s: &mut S) {
     input!(s, 12 => data, len, d);
     if let Ok(p) = Bye::parse(d) {
@@ -509,6 +539,8 @@ common::register! {
     q_sdes_chunk = sdes_chunk::<_, 16> => 2,
     q_sdes = sdes::<_, 16> => 2,
     q_app_name_string = app_name_string => 2,
+    q_bye_reason_string_3 = bye_reason_string_fixed::<_, 3> => 2,
+    q_item_value_string_3 = item_value_string_fixed::<_, 3> => 2,
     t_app = app::<_, 1100> => 2,
     t_bye = bye::<_, 256> => 2,
     t_rr = rr::<_, 256> => 2,
